@@ -248,11 +248,9 @@ pub fn check(tier: Tier) -> i32 {
         let p = crate::report::verif_root().join("replays").join(format!("C04-crash-child-{}.json", pid));
         let v: Value = serde_json::from_str(&std::fs::read_to_string(&p).unwrap_or_default()).unwrap_or(Value::Null);
         // confirm: the recorded case alone must die again in the same build profile
-        use std::os::unix::process::ExitStatusExt;
-        let again = std::process::Command::new(bin).arg("replay").arg(&p).stdout(std::process::Stdio::null()).stderr(std::process::Stdio::null()).status().expect("replay");
-        let died = again.signal().is_some() || again.code() == Some(crate::crashguard::CRASH_EXIT);
-        if v.is_null() || !died {
-          eprintln!("machinery: C04 child died but the recorded case {} does not reproduce ({:?})", p.display(), again);
+        let secs = if v["signature"].as_str().unwrap_or("").starts_with("hang") { 30 } else { 300 };
+        if v.is_null() || !crate::crashguard::confirm_replay(bin, &p, secs) {
+          eprintln!("machinery: C04 child died but the recorded case {} does not reproduce", p.display());
           return 2;
         }
         evals += v["evaluations_before"].as_u64().unwrap_or(0) + 1;
